@@ -17,14 +17,20 @@ import (
 	"encoding/binary"
 	"encoding/json"
 	"fmt"
+	"io"
 	"os"
 	"path/filepath"
+	"runtime"
 	"sort"
+	"sync"
 
 	"github.com/klauspost/compress/zstd"
 
 	"github.com/restic/restic/internal/backend"
+	"github.com/restic/restic/internal/backend/mem"
+	"github.com/restic/restic/internal/repository"
 	"github.com/restic/restic/internal/repository/crypto"
+	"github.com/restic/restic/internal/restic"
 )
 
 var _ = verifRegister("C04", engineC04)
@@ -156,6 +162,9 @@ func engineC04(c *vctx) error {
 func engineC04Body(c *vctx) error {
 	c.Header("Model.C04m", "C04m.case", "C04m.check_case")
 	c.Preamble("Import C04m.")
+	if err := c04Concurrency(c); err != nil {
+		return err
+	}
 	type cfg struct{ name, version, compression string }
 	cfgs := []cfg{{"v2auto", "2", "auto"}, {"v1", "1", "auto"}}
 	if c.thorough() {
@@ -352,9 +361,172 @@ func engineC04Body(c *vctx) error {
 				scan(false, name, nil)
 			}
 		}
-		term := fmt.Sprintf("mkcase %s %s %s", coqList(files), coqList(hits), coqNat(2))
+		term := fmt.Sprintf("mkcase %s %s %s []", coqList(files), coqList(hits), coqNat(2))
 		c.Info("files-"+cf.name, nfiles)
 		c.Case("repo-history-"+cf.name, true, len(files), term, fmt.Sprintf("%s: files saved over the whole history (both repositories) %v, marker hits %d (2 public expected)", cf.name, nfiles, len(hits)))
 	}
+	return nil
+}
+
+// ---- concurrency family: are the draws linearisable? ----
+
+type c04Nonce [16]byte
+
+// c04Dups sorts the collected nonces and returns the number of distinct values and up to 8 repeated ones.
+func c04Dups(all []c04Nonce) (distinct int, dups []string) {
+	sort.Slice(all, func(i, j int) bool { return bytes.Compare(all[i][:], all[j][:]) < 0 })
+	for i := range all {
+		if i == 0 || all[i] != all[i-1] {
+			distinct++
+		} else if len(dups) < 8 && (i < 2 || all[i] != all[i-2]) {
+			dups = append(dups, coqHex(all[i][:]))
+		}
+	}
+	return distinct, dups
+}
+
+func c04ConcTerm(expected, collected, distinct int, dups []string) string {
+	return fmt.Sprintf("mkcase [] [] %s [%s]", coqNat(0), coqTuple(coqN(uint64(expected)), coqN(uint64(collected)), coqN(uint64(distinct)), coqList(dups)))
+}
+
+func c04Concurrency(c *vctx) error {
+	vsetupFast()
+	// (a) the real crypto.NewRandomNonce hammered from 16 goroutines
+	const workers = 16
+	per := c.n(2_000_000, 8_000_000) / workers
+	all := make([]c04Nonce, workers*per)
+	var wg sync.WaitGroup
+	for w := 0; w < workers; w++ {
+		wg.Add(1)
+		go func(w int) {
+			defer wg.Done()
+			for i := 0; i < per; i++ {
+				copy(all[w*per+i][:], crypto.NewRandomNonce())
+			}
+		}(w)
+	}
+	wg.Wait()
+	distinct, dups := c04Dups(all)
+	c.Case("concurrent-draws", true, len(all), c04ConcTerm(len(all), len(all), distinct, dups),
+		fmt.Sprintf("crypto.NewRandomNonce from %d goroutines: %d draws, %d distinct", workers, len(all), distinct))
+	all = nil
+
+	// (b) many concurrent blob savers on an in-memory repository; every stored nonce is collected
+	rounds := c.n(2, 6)
+	const perRound = 100_000
+	ctx := context.Background()
+	be := mem.New()
+	repo, err := repository.New(be, repository.Options{Compression: repository.CompressionOff})
+	if err != nil {
+		return err
+	}
+	if err := repo.Init(ctx, 2, vPassword, nil); err != nil {
+		return fmt.Errorf("init mem repo: %w", err)
+	}
+	for round := 0; round < rounds; round++ {
+		err := repo.WithBlobUploader(ctx, func(ctx context.Context, up restic.BlobSaverWithAsync) error {
+			var swg sync.WaitGroup
+			var mu sync.Mutex
+			var first error
+			for i := 0; i < perRound; i++ {
+				var buf [12]byte
+				binary.LittleEndian.PutUint32(buf[0:], uint32(round))
+				binary.LittleEndian.PutUint64(buf[4:], uint64(i)^c.seed<<32)
+				tpe := restic.DataBlob
+				if i%8 == 0 {
+					tpe = restic.TreeBlob
+				}
+				swg.Add(1)
+				up.SaveBlobAsync(ctx, tpe, buf[:], restic.ID{}, false, func(_ restic.ID, _ bool, _ int, err error) {
+					if err != nil {
+						mu.Lock()
+						if first == nil {
+							first = err
+						}
+						mu.Unlock()
+					}
+					swg.Done()
+				})
+			}
+			swg.Wait()
+			return first
+		})
+		if err != nil {
+			return fmt.Errorf("concurrent save: %w", err)
+		}
+	}
+	key := repo.Key()
+	var stored []c04Nonce
+	add := func(b []byte) {
+		var n c04Nonce
+		copy(n[:], b)
+		stored = append(stored, n)
+	}
+	bad := 0
+	for _, t := range []restic.FileType{restic.PackFile, restic.IndexFile, restic.ConfigFile} {
+		err := be.List(ctx, backend.FileType(t), func(fi backend.FileInfo) error {
+			var raw []byte
+			lerr := be.Load(ctx, backend.Handle{Type: backend.FileType(t), Name: fi.Name}, 0, 0, func(rd io.Reader) error {
+				var e error
+				raw, e = io.ReadAll(rd)
+				return e
+			})
+			if lerr != nil {
+				return lerr
+			}
+			if t != restic.PackFile {
+				if len(raw) >= 32 {
+					add(raw[:16])
+				}
+				return nil
+			}
+			// hand parse: length field, header, entries (offsets are cumulative)
+			L := len(raw)
+			if L < 36 {
+				bad++
+				return nil
+			}
+			hlen := int(binary.LittleEndian.Uint32(raw[L-4:]))
+			if hlen < 32 || hlen+4 > L {
+				bad++
+				return nil
+			}
+			hdr := raw[L-4-hlen : L-4]
+			pt, oerr := key.Open(nil, hdr[:16], hdr[16:], nil)
+			if oerr != nil {
+				bad++
+				return nil
+			}
+			add(hdr[:16])
+			off := 0
+			for pos := 0; pos < len(pt); {
+				sz := 37
+				if pt[pos] >= 2 {
+					sz = 41
+				}
+				if pos+sz > len(pt) {
+					bad++
+					break
+				}
+				l := int(binary.LittleEndian.Uint32(pt[pos+1:]))
+				if off+16 <= L {
+					add(raw[off : off+16])
+				}
+				off += l
+				pos += sz
+			}
+			return nil
+		})
+		if err != nil {
+			return fmt.Errorf("collect nonces: %w", err)
+		}
+	}
+	if bad > 0 {
+		return fmt.Errorf("concurrent-savers: %d pack files did not parse", bad)
+	}
+	collected := len(stored)
+	distinct, dups = c04Dups(stored)
+	c.Case("concurrent-savers", true, collected, c04ConcTerm(rounds*perRound, collected, distinct, dups),
+		fmt.Sprintf("%d x %d tiny blobs through SaveBlobAsync on a mem repository (GOMAXPROCS=%d): %d sealed objects collected, %d distinct nonces", rounds, perRound, runtime.GOMAXPROCS(0), collected, distinct))
 	return nil
 }
